@@ -289,7 +289,7 @@ func Fill(r *rand.Rand, t *T, v reflect.Value, o ValOpts) {
 	case KFloat64:
 		v.SetFloat(Float64(r, o))
 	case KFloat32:
-		v.Set(reflect.ValueOf(Float32(r, o)))
+		v.SetFloat(float64(Float32(r, o)))
 	case KString:
 		v.SetString(String(r, o))
 	case KBytes:
